@@ -137,8 +137,12 @@ def _observe(case, run_seconds=20):
         trace.append({'ev': 'probe', 'args': [A.aval(a) for a in args], 'cnt': options.get('statementCount', 0)})
         return args[1] if len(args) > 1 else None
 
+    fails = [0]
+
     def host_fail(args, options):
-        raise ValueError('host failure')
+        # host functions fail in many ways: with and without a message, with a non-string argument
+        fails[0] += 1
+        raise (ValueError('host failure'), NotImplementedError(), KeyError('k'), AssertionError(), ZeroDivisionError('x'), OSError(5, 'io'))[fails[0] % 6]
 
     def log_fn(text):
         m = _RE_DBGFAIL.match(text)
